@@ -29,8 +29,8 @@ structure Pres (P : Params) (S : Blk → Prop) (A : Nat → Prop) (Q : State →
   conn : ∀ s b s', Q s → Seen S s → S b → connectBlock P s b = (s', none) → Q s'
   disc : ∀ s b s' r, Q s → Seen S s → s.stored b.id = some b → disconnectBlock P s b = (s', r) → Q s'
   store : ∀ s b s', Q s → S b → storeBlock s b = some s' → Q s'
-  poolAdd : ∀ s h, Q s → A h → Q { s with pool := s.pool ++ [h] }
-  poolDel : ∀ s h, Q s → Q { s with pool := s.pool.filter (· != h) }
+  poolAdd : ∀ s t, Q s → A t → Q { s with pool := s.pool ++ [t] }
+  poolDel : ∀ s h, Q s → Q { s with pool := s.pool.filter (fun p => P.key p != h) }
 
 variable {P : Params} {S : Blk → Prop} {A : Nat → Prop} {Q : State → Prop}
 
@@ -103,7 +103,7 @@ theorem connectBlock_ok {s s' : State} {b : Blk} (h : connectBlock P s b = (s', 
                      best := b :: s1.best,
                      txIdx := addTxs P s1.txIdx b,
                      cache := cacheAdd P s1 b,
-                     pool := s1.pool.filter (fun h => !(keys P b).contains h) } := by
+                     pool := s1.pool.filter (fun p => !(keys P b).contains (P.key p)) } := by
   unfold connectBlock at h
   split at h
   · cases h
@@ -397,7 +397,7 @@ theorem Pres.step (hP : Pres P S A Q) (s : State) (ev : Ev) (hev : EvOk S A ev) 
   cases ev with
   | deliver b src => exact hP.processBlock s b src hev h
   | poolAdd x =>
-    simp only [C27.step]
+    simp only [C27.step, poolPush]
     split
     · exact h
     · exact ⟨hP.poolAdd s x h.1 hev, h.2⟩
